@@ -1,5 +1,6 @@
 import HdVerif.Proofs.PixelFlags
 import HdVerif.Proofs.PixelPipeline
+import HdVerif.Generated.T6g
 /-! # C06  Pixel transforms follow the DICOM pipeline and the tri-state flags
 
 Property theorems only.  Definitions under `HdVerif.Gen` are regenerated from /repo's current source on
@@ -589,6 +590,59 @@ theorem folded_eq_ref (exp : Rat → Rat) (hexp : ∀ a, exp (-a) * exp a = 1) (
             cases vdata with
             | nil => simp [listMin] at hmn
             | cons a t => exact map_congr_of_eq _ (fold_modlut_voilut p st mfirst vfirst mdata a t mn mx s hp hv hmn hmx hne h1 h2 h3)
+
+/-! ## Quantifier: output dtype -/
+
+/-- **Output dtype.**  When `_check_rescale_dtype` accepts an integer output type, every value the rescale
+`m x + b` produces over the whole stored range (negative slopes - every inverted presentation - included) is an
+integer inside the type's range: the final cast can neither truncate nor wrap. -/
+theorem rescale_dtype_sound (m b : Rat) (hasR : Bool) (rmin rmax : Int) (outKind inKind : String)
+    (outMax outMin inMax inMin : Int) (r : Bool)
+    (h : checkRescaleDtype m b hasR rmin rmax outKind inKind outMax outMin inMax inMin = .ok r)
+    (hk : outKind = "u" ∨ outKind = "i") (x : Int)
+    (hlo : (if hasR then rmin else inMin) ≤ x) (hhi : x ≤ (if hasR then rmax else inMax)) :
+    (outMin : Rat) ≤ m * (x : Rat) + b ∧ m * (x : Rat) + b ≤ (outMax : Rat) ∧ ∃ z : Int, m * (x : Rat) + b = (z : Rat) := by
+  unfold checkRescaleDtype at h
+  simp only at h
+  have hc3 : ((outKind == "u") || (outKind == "i")) = true := by
+    rcases hk with rfl | rfl <;> decide
+  have hc2 : (!((outKind == "u") || (outKind == "i") || (outKind == "f"))) = false := by
+    rcases hk with rfl | rfl <;> decide
+  rw [hc2, hc3] at h
+  generalize hc6 : (!((m == ((Rat.floor m : Int) : Rat)) && (b == ((Rat.floor b : Int) : Rat)))) = c6 at h
+  generalize hc7 : (!((inKind == "u") || (inKind == "i"))) = c7 at h
+  generalize hc8 : ((outKind == "u") && (decide (b < ((0 : Rat) / 1)))) = c8 at h
+  generalize hlo' : (if hasR then rmin else inMin) = lo at h hlo
+  generalize hhi' : (if hasR then rmax else inMax) = hi at h hhi
+  generalize hc22 : ((decide (max (((lo : Int) : Rat) * m + b) (((hi : Int) : Rat) * m + b) > ((outMax : Int) : Rat))) ||
+    (decide (min (((lo : Int) : Rat) * m + b) (((hi : Int) : Rat) * m + b) < ((outMin : Int) : Rat)))) = c22 at h
+  cases c6 <;> cases c7 <;> cases c8 <;> cases c22 <;> simp at h
+  -- integrality of slope and intercept
+  simp only [Bool.not_eq_false', Bool.and_eq_true, beq_iff_eq] at hc6
+  obtain ⟨hm, hb⟩ := hc6
+  -- capacity at both ends of the range
+  simp only [Bool.or_eq_false_iff, decide_eq_false_iff_not, not_lt, gt_iff_lt] at hc22
+  obtain ⟨hmax, hmin⟩ := hc22
+  have hxlo : ((lo : Int) : Rat) ≤ (x : Rat) := by exact_mod_cast hlo
+  have hxhi : (x : Rat) ≤ ((hi : Int) : Rat) := by exact_mod_cast hhi
+  have h1 := le_max_left (((lo : Int) : Rat) * m + b) (((hi : Int) : Rat) * m + b)
+  have h2 := le_max_right (((lo : Int) : Rat) * m + b) (((hi : Int) : Rat) * m + b)
+  have h3 := min_le_left (((lo : Int) : Rat) * m + b) (((hi : Int) : Rat) * m + b)
+  have h4 := min_le_right (((lo : Int) : Rat) * m + b) (((hi : Int) : Rat) * m + b)
+  refine ⟨?_, ?_, ?_⟩
+  · by_cases hm0 : 0 ≤ m
+    · have : ((lo : Int) : Rat) * m ≤ (x : Rat) * m := mul_le_mul_of_nonneg_right hxlo hm0
+      linarith
+    · have : ((hi : Int) : Rat) * m ≤ (x : Rat) * m := mul_le_mul_of_nonpos_right hxhi (by linarith)
+      linarith
+  · by_cases hm0 : 0 ≤ m
+    · have : (x : Rat) * m ≤ ((hi : Int) : Rat) * m := mul_le_mul_of_nonneg_right hxhi hm0
+      linarith
+    · have : (x : Rat) * m ≤ ((lo : Int) : Rat) * m := mul_le_mul_of_nonpos_right hxlo (by linarith)
+      linarith
+  · refine ⟨Rat.floor m * x + Rat.floor b, ?_⟩
+    push_cast
+    rw [← hm, ← hb]
 
 /-! ## Clause: lookup-table objects return the table they were given -/
 
